@@ -920,7 +920,7 @@ class Grammar(PGFile):
 
             base_symbol = symbol
             symbol_name = symbol_ref.multiplicity_fqn
-            symbol = self.resolve_symbol_by_name(symbol_name, symbol_ref.location)
+            symbol = self._resolve_generated_symbol(symbol_name)
             if not symbol:
                 # If there is no multiplicity version of the symbol we
                 # will create one at this place
@@ -929,6 +929,18 @@ class Grammar(PGFile):
                 )
 
         return symbol
+
+    def _resolve_generated_symbol(self, symbol_name):
+        """
+        Resolves a symbol by a generated name (helper rules for multiplicity).
+        The name is derived from the name of the base symbol, which for inline
+        string terminals is an arbitrary text, so a dot in it doesn't have to
+        denote an imported module.
+        """
+        try:
+            return self.resolve_symbol_by_name(symbol_name)
+        except GrammarError:
+            return None
 
     def _make_multiplicity_symbol(
         self, symbol_ref, base_symbol, separator, imported_with
@@ -945,7 +957,7 @@ class Grammar(PGFile):
                 MULT_ONE_OR_MORE,
                 separator.name if separator else None,
             )
-            symbol = self.resolve_symbol_by_name(symbol_name)
+            symbol = self._resolve_generated_symbol(symbol_name)
             if not symbol:
                 # noqa See: http://www.igordejanovic.net/parglare/grammar_language/#one-or-more_1
                 productions = []
